@@ -323,6 +323,9 @@ type nodeSim struct {
 	serialNo   int
 
 	retryEvery time.Duration
+	pst        *prophetState
+	vecSeq     int
+	emitted    map[string]bool
 	trackSeq   int
 	reportsJudged map[string]bool
 	allAgents  []*simAgent
@@ -456,6 +459,9 @@ func (n *nodeSim) settle() {
 		} else {
 			n.lg.Add("release %s:%s", t.Point, shortKey(t.Key))
 			n.res.Probe("hook_release_" + t.Point)
+			if t.Point == "store.cron" && t.Key == "dtlsr_recompute" && n.algo == "prophet" {
+				n.prophetOnAgeTick() // PRoPHET registers its ageing job under this name
+			}
 			n.sched.Release(t, "go")
 		}
 	}
@@ -594,6 +600,9 @@ func (n *nodeSim) noteSend(rec *sendRec, t *simk.Task) {
 		tr.sends = append(tr.sends, rec)
 	}
 	n.lg.Add("send-invoked p%d %s %s id=%s", rec.peer, rec.kind, rec.tag, rec.idStr)
+	if rec.kind == "meta" && n.algo == "prophet" {
+		n.prophetEmission(rec)
+	}
 	n.onSendInvoked(rec)
 }
 
@@ -671,6 +680,8 @@ func (n *nodeSim) buildBundle(sp *BSpec) (bpv7.Bundle, error) {
 	}
 	return b, nil
 }
+
+func bytesReader(b []byte) *bytes.Reader { return bytes.NewReader(b) }
 
 func encodeBundle(b *bpv7.Bundle) ([]byte, error) {
 	var buf bytes.Buffer
@@ -835,6 +846,8 @@ func (n *nodeSim) exec(op simk.Op) {
 		n.advance(time.Duration(op.N) * time.Millisecond)
 	case "restart":
 		n.opRestart(time.Duration(op.N) * time.Millisecond)
+	case "vec":
+		n.execVec(op.P, op.X, op.M != 0)
 	case "set_fail":
 		n.failRate = float64(op.N) / 100
 	case "faults_off":
@@ -992,6 +1005,7 @@ func (n *nodeSim) opPeerUp(p int) {
 	ps.insts = append(ps.insts, inst)
 	ps.upEpoch = n.epoch + 1
 	c := n.core
+	n.prophetOnPeerUp(ps)
 	n.inject("peer_up:p"+strconv.Itoa(p), func() { c.RegisterConvergable(inst) })
 	n.onPeerUp(ps)
 }
@@ -1059,6 +1073,7 @@ func (n *nodeSim) opRestart(down time.Duration) {
 		return
 	}
 	n.onRestart()
+	n.prophetOnRestart()
 	for _, tr := range n.tracks {
 		// spray budgets live in memory only; the statement does not quantify over restarts
 		n.sprayOf(tr).unknown = true
